@@ -148,6 +148,16 @@ def scenarios(P):
             'defaults': [], 'conf': {},
             'probes': [('dr', [])],
         },
+        's13-default-is-a-reference': {
+            # a registered default that is itself a `rule:` reference: its
+            # check OBJECT is handed to every rebuilt store, so the two
+            # threads evaluate the very same RuleCheck instance
+            'old': {'policy.yaml': {'adm': '@', 'x': 'role:x1'}},
+            'new': {'policy.yaml': {'adm': '@', 'x': 'role:x2'}},
+            'defaults': lambda: [P.RuleDefault('rg', 'rule:adm')],
+            'conf': {},
+            'probes': [('rg', [])],
+        },
         's5-alias-halves-swap': {
             'old': {'policy.yaml': {'a': 'rule:h1 and rule:h2',
                                     'h1': 'role:p', 'h2': 'role:q'}},
@@ -169,7 +179,8 @@ TIERS = {
                         's9-dir-rule-beside-missing-default',
                         's10-dir-overrides-default-rule',
                         's11-no-overwrite-dir-edit',
-                        's12-empty-main-file-rewritten'],
+                        's12-empty-main-file-rewritten',
+                        's13-default-is-a-reference'],
                   bound=2, reduced=True, opcode=False,
                   probes={'s1-main-edit-dir-override': [2, 1],
                           's1b-main-edit-dir-touched': [1],
@@ -182,7 +193,8 @@ TIERS = {
                           's9-dir-rule-beside-missing-default': [2],
                           's10-dir-overrides-default-rule': [1, 1],
                           's11-no-overwrite-dir-edit': [1, 1],
-                          's12-empty-main-file-rewritten': [1]}),
+                          's12-empty-main-file-rewritten': [1],
+                          's13-default-is-a-reference': [1]}),
     'thorough': dict(scen=None, bound=2, reduced=False, opcode=True,
                      probes=None),
 }
